@@ -6,7 +6,7 @@ import json, os, subprocess, sys, threading, queue, glob
 sys.path.insert(0, "/verif/tools")
 import mutsweep
 
-OWN = {"C11-3": ["C10"]}  # kept seeds that are reported by another property's check (see their meta.json)
+OWN = {}  # seeds whose owning check is another property's (none at present)
 
 
 def sh(cmd, **kw):
